@@ -182,7 +182,7 @@ def shared_function_defs(order="fg"):
     gres = gdef(**{gp: a + 1.0})
     hres = hdef(**{hp: a - 1.0})
     d = {"f": fres, "g": gres, "h": hres}
-    keys = {"fg": ["f", "g", "h"], "gf": ["g", "f", "h"], "hgf": ["h", "g", "f"]}[order]
+    keys = list(order) + [k for k in "fgh" if k not in order]
     return pt.make_dict_of_named_arrays({k: d[k] for k in keys})
 
 
@@ -229,4 +229,14 @@ def all_graphs(tier="quick"):
         ("shared-defs-hgf", lambda: shared_function_defs("hgf"), False),
         ("shared-buffers", shared_buffers, False),
     ]
+    if tier != "quick":
+        G += [
+            ("fan32", lambda: fan(32), False),
+            ("ladder30", lambda: ladder(30), False),
+            ("ladder2x20", lambda: ladder2(20), False),
+            ("edges-dup-nodist", lambda: every_edge_kind(True, False, with_dist=False), True),
+            ("edges-tagged-nodist", lambda: every_edge_kind(False, True, with_dist=False), False),
+            ("edges-dup-tagged-nocalls", lambda: every_edge_kind(True, True, with_calls=False), True),
+            ("edges-dup-plain", lambda: every_edge_kind(True, False, with_dist=False, with_calls=False), True),
+        ] + [(f"shared-defs-{o}", (lambda o=o: shared_function_defs(o)), False) for o in ("fhg", "gfh", "ghf", "hfg")]
     return G
